@@ -56,7 +56,7 @@ def add_features(feature: Feature, n_tabs: int) -> list[str]:
             child = relation.children[0]
             lines.append(indentation + f':m {safename(child.name)} ({safename(child.name)})')
             lines.extend(add_features(child, n_tabs + 1))
-        elif relation.is_alternative() or relation.is_or():
+        elif relation.is_group():  # alternative, or, mutex, and cardinality groups
             lines.append(indentation + f':g [{relation.card_min},{relation.card_max}]')
             for child in relation.children:
                 lines.append(
